@@ -1226,6 +1226,27 @@ pub fn main(opts: &Opts) {
             Err(e) => report.notes.push(format!("model driver failed: {}", e)),
         }
     }
+    // a sending link on the listener side whose acceptor supports fewer receiver-settle-modes than the peer asks
+    // for: whatever mode the listener's attach confirms is the mode of the link, and in mode second the
+    // receiver's unsettled outcome is answered with a settling disposition
+    for supported in [fe2o3_amqp::acceptor::SupportedReceiverSettleModes::Both, fe2o3_amqp::acceptor::SupportedReceiverSettleModes::First, fe2o3_amqp::acceptor::SupportedReceiverSettleModes::Second] {
+        report.evaluations += 1;
+        report.count("listener_sender_mode_second");
+        let name = format!("{:?}", supported);
+        report.nontrivial_case(fnv(&format!("lsecond-{}", name)));
+        let replay = json!({"property": "C02", "module": "settle", "listener_sender_mode_second": {"supported": name}});
+        match crate::lsender::run_settle_second(supported) {
+            Ok((confirmed, echoes, res)) => {
+                let second = matches!(confirmed, ReceiverSettleMode::Second);
+                if second && !echoes.iter().any(|(_, _, settled)| *settled) {
+                    report.finding(Finding { kind: "violation", key: "no-settling-echo:listener-sender".into(), description: format!("a LinkAcceptor supporting {} confirmed rcv-settle-mode second to a receiver that asked for it; the receiver's unsettled `accepted` was not answered with a settling disposition (send returned {}, dispositions from the sender: {:?})", name, res, echoes), replay });
+                } else if !res.starts_with("Accepted") {
+                    report.finding(Finding { kind: "violation", key: "send-never-resolved:listener-sender".into(), description: format!("a LinkAcceptor supporting {} (confirmed mode {:?}): send returned {} although the receiver accepted the delivery", name, confirmed, res), replay });
+                }
+            }
+            Err(e) => report.finding(Finding { kind: "violation", key: "listener-sender-scenario-failed".into(), description: e, replay }),
+        }
+    }
     split_runs(&mut rng, opts, &mut report);
     report.write(&opts.report);
     println!("settle: {} cases, {} non-trivial, {} findings", report.evaluations, report.nontrivial.len(), report.findings.len());
